@@ -75,6 +75,9 @@ type Case struct {
 	Scenario string `json:"scenario"`
 	Schedule []int  `json:"schedule"`
 	Trace    string `json:"trace,omitempty"`
+	// Tier: the tier whose scenario list the schedule belongs to (a scenario of one name may build a larger world in the
+	// thorough tier; a schedule only means something on the world it was recorded on)
+	Tier string `json:"tier,omitempty"`
 }
 
 type frame struct {
